@@ -34,7 +34,7 @@ func Mgamma(x float64, k int) float64 {
 func Mlgamma(x float64, k int) float64 {
   result := float64(k*(k-1.0))/4.0*math.Log(math.Pi)
   for i := 1; i <= k; i += 1 {
-    v, _ := math.Lgamma((2.0*x+1.0-float64(i))/2.0)
+    v, _ := math.Lgamma(x + float64(1-i)/2.0)
     result += v
   }
   return result
